@@ -6,7 +6,12 @@
   heuristics) are outside the model and decided by search only.  Helper lemmas: Proofs/Dom.lean.
 -/
 import PM.Dom
+import PM.FromDom
 import Proofs.Dom
+import Proofs.FromDom
+import Proofs.Placement
+import Proofs.PlacementValid
+import Proofs.PlacementMarks
 namespace PM.C19
 open PM.Dom
 
@@ -319,5 +324,202 @@ theorem serialize_text (kids : List SNode) (h : snodesOk kids = true) :
     textOfAll (serFrag kids [] []) = snodesText kids := by
   have := serFrag_text kids [] [] h (by intro f hf; simp at hf)
   simpa [stackText, textOfAll] using this
+
+/-! ## Import side, part A: context expressions of parse rules (`ParseContext.matches_context`)
+
+  Model `PM.FromDom.matchesContext` (PM/FromDom.lean), tied exactly to the real method on generated
+  stacks × generated expressions.  The declarative reading (`Item`, `itemsOf`, `Denotes`, `AltMatches`)
+  is defined in Proofs/FromDom.lean:
+
+  * the expression is cut at every `|` (`alternatives`: `re.split(r"\s*\|\s*")`, whitespace around a `|`
+    is dropped, nowhere else);
+  * an alternative is cut at `/`; an empty first and an empty last piece are ignored (`/a` = `a`,
+    `a/` = `a`); any other empty piece is the `//` wildcard (`itemsOf`);
+  * `Denotes ok items l` — `items` matches the ancestor list `l` exactly: a name one ancestor (its type
+    name or one of its groups), the wildcard any number (≥ 0) of them;
+  * `AltMatches ok items stack` — some **suffix** of the visible ancestors (outermost first) is denoted
+    by `items` (anchored at the innermost open node, unanchored at the top), and if `items` starts with
+    a wildcard at least one ancestor stays outside the matched suffix.  The last clause is what the
+    code does (the wildcard loop runs `while depth >= min_depth`, so it cannot consume the outermost
+    visible ancestor): `//p` does not apply to a root-level `p` context although `p` does.
+-/
+open PM.FromDom in
+/-- **`matches_context` = the declarative reading**, for all schemas, stacks and expressions -/
+theorem matchesContext_spec (S : Schema) (G : TypeId → List String) (stack : List TypeId) (ctx : List Char) :
+    matchesContext S G stack ctx = true ↔
+      ∃ alt ∈ alternatives ctx, AltMatches (nameOk S G) (itemsOf alt) stack := by
+  simp only [matchesContext, List.any_eq_true, matchesAlt_iff]
+
+open PM.FromDom in
+/-- an expression without `|` is its own only alternative, whitespace included -/
+theorem alternatives_single (ctx : List Char) (h : '|' ∉ ctx) : alternatives ctx = [ctx] :=
+  alternatives_no_bar ctx h
+
+open PM.FromDom in
+/-- the empty alternative matches every stack (`"a|"` never restricts a rule) -/
+theorem altMatches_empty (ok : List Char → TypeId → Bool) (stack : List TypeId) :
+    AltMatches ok (itemsOf []) stack :=
+  ⟨stack, [], by simp, .nil, by simp [itemsOf, splitOn, dropLastEmpty, dropFirstEmpty]⟩
+
+
+/-! ## Import side, part B: the placement core of `ParseContext` (PM/FromDom.lean, tied by recorded events)
+
+  `PState.run S wsPre (PState.init S false pw topOpen) events` is the model of one `DOMParser.parse` run: the
+  DOM walk (outside the model) issues `events`, the placement core answers them.  The theorems hold for
+  **every** event list, hence for whatever the walk does on whatever HTML.
+-/
+
+open PM.FromDom in
+/-- **`match` is coherent with `content`** (invariant over every event sequence of a `parse` run).
+    For every context of the stack — open or waiting to be closed —: it has a type `t`, a known match
+    `q`, is not open on the left, and `q` is the state `t`'s content automaton reaches from its start
+    state on the types of the context's `content`, followed by the type of its child context (the next
+    entry of `nodes`) if it has one.  Hypothesis: the automata are deterministic (`Det S`, decidable:
+    `det_of_detB`); it is needed because `find_wrapping` is proved sound only then. -/
+theorem placement_match_coherent (S : Schema) (wsPre : TypeId → Bool) (hdet : Det S)
+    (pw : WS) (topOpen : Bool) (events : List Event) (st : FromDom.PState)
+    (h : PState.run S wsPre (PState.init S false pw topOpen) events = .ok st)
+    (i : Nat) (cx : NodeCtx) (hi : st.nodes[i]? = some cx) :
+    cx.opts.openLeft = false ∧ ∃ t q, cx.ty = some t ∧ cx.mtch = some q ∧
+      (S.dfa t).run 0 (S.types cx.content ++ ((st.nodes[i + 1]?).bind (·.ty)).toList) = some q := by
+  have hc := run_spec S (fun _ => True) (fun _ _ _ _ _ _ => trivial) wsPre (fun w => hdet w 0) events _ st
+    (init_coh S _ pw topOpen) (fun e _ => by cases e <;> simp [EventOk, FinishOk]) h
+  obtain ⟨h1, _, h2⟩ := Coh_index S _ st.nodes hc i cx hi
+  exact ⟨h1, h2⟩
+
+open PM.FromDom in
+/-- consequence: at every moment the children collected in any context form a sequence its content
+    expression can still be completed from — `find_place` / `insert_node` / `enter` never append a node
+    (nor open a child) whose type the parent's automaton does not allow at that point -/
+theorem placement_content_prefix (S : Schema) (wsPre : TypeId → Bool) (hdet : Det S)
+    (pw : WS) (topOpen : Bool) (events : List Event) (st : FromDom.PState)
+    (h : PState.run S wsPre (PState.init S false pw topOpen) events = .ok st)
+    (cx : NodeCtx) (hcx : cx ∈ st.nodes) :
+    ∃ t, cx.ty = some t ∧ ((S.dfa t).run 0 (S.types cx.content)).isSome = true := by
+  obtain ⟨i, hi⟩ := List.getElem?_of_mem hcx
+  obtain ⟨_, t, q, h1, _, h3⟩ := placement_match_coherent S wsPre hdet pw topOpen events st h i cx hi
+  refine ⟨t, h1, ?_⟩
+  rw [Dfa.run_append] at h3
+  cases hr : (S.dfa t).run 0 (S.types cx.content) with
+  | none => simp [hr] at h3
+  | some _ => rfl
+
+open PM.FromDom in
+/-- what the DOM walk must respect for the validity theorem: nodes it hands to `insert_node` are themselves
+    content-valid (text and leaf nodes always are; this matters for `getContent` rules only), and it calls
+    `close_extra` only with `open_end = False` (the code does: `current_pos`) -/
+def WalkOk (S : Schema) : Event → Prop
+  | .insertNode n => contentOk S n = true
+  | .closeExtra oe => oe = false
+  | _ => True
+
+open PM.FromDom in
+/-- **the finished document is content-valid** (partial validity of `parse`).
+    For every event list of a `parse` run (`is_open = False`, no `top_open`): if `finish` returns a
+    document — i.e. every `fill_before(…, True)` it needs succeeds — then in that document **every
+    non-leaf node's child-type sequence is accepted by its type's content automaton** (`contentOk`, the
+    content-expression clause of `Node.check`, recursively; the nodes filled in by `fill_before` /
+    `create_and_fill` included).
+
+    Hypotheses on the schema (all decidable, `det_of_detB`, `textStable_of_B`, `leafOk_of_B`; evaluated on
+    every schema of the tie by the driver):
+    * `Det S` — the automata are deterministic;
+    * `LeafOk S` — leaf types accept the empty content (only used for the leaf nodes themselves);
+    * `TextStable S` — reading a text node leads to a state with the same edges and the same
+      acceptance as the state before.  Needed because `NodeContext.finish` strips a trailing
+      whitespace-only text node *after* `match` has advanced over it, and `Fragment.from_` merges adjacent
+      text nodes.  Without it the statement is FALSE for the real code as well: with
+      `fig: "hard_break image? (text | hard_break)"` the HTML `<figure><br><img src="a"> </figure>` parses to
+      `fig(hard_break, image)`, which `check()` rejects.
+
+    The mark clauses of `check()` are the subject of `placement_finish_marks`; `placement_finish_valid`
+    puts both together.  Attributes: `compute_attrs` supplies every declared attribute (or `finish` raises);
+    `check()` does not look at attribute values. -/
+theorem placement_finish_valid_partial (S : Schema) (wsPre : TypeId → Bool) (hdet : Det S) (hts : TextStable S)
+    (hleaf : LeafOk S) (pw : WS) (events : List Event) (hev : ∀ e ∈ events, WalkOk S e)
+    (st : FromDom.PState) (doc : Node) (rest : List Node)
+    (hrun : PState.run S wsPre (PState.init S false pw false) events = .ok st)
+    (hfin : st.finish S = .ok (some doc, rest)) : contentOk S doc = true := by
+  have hfo := finishOk_contentOk S hdet hts hleaf
+  have hc := run_spec S (fun n => contentOk S n = true) hfo wsPre (fun w => hdet w 0) events _ st
+    (init_coh S _ pw false) (by
+      intro e he
+      have := hev e he
+      cases e with
+      | insertNode n => intro m; rw [contentOk_withMarks]; exact this
+      | closeExtra oe => simp only [WalkOk] at this; subst this; exact hfo
+      | _ => trivial) hrun
+  have hf := run_flags S wsPre events _ st hrun
+  exact finish_valid S hdet hts hleaf st doc rest hc hf hfin
+
+open PM.FromDom in
+/-- **the finished document has valid marks** (the mark clauses of `Node.check`, for every event list —
+    `parse` and `parse_slice` alike, no hypothesis on the schema): every node of the result carries a
+    canonical mark set (`canonicalMarks`: sorted by rank, no duplicates, no excluded pair) that its parent's
+    type allows (`allowsMarks`), down to the filled-in nodes.  The walk only has to hand over nodes whose
+    *descendants* have valid marks (`WalkMarksOk`; trivially true of text and leaf nodes) — the node's own
+    marks are recomputed by `insert_node` from the active marks. -/
+theorem placement_finish_marks (S : Schema) (wsPre : TypeId → Bool) (isOpen : Bool) (pw : WS) (topOpen : Bool)
+    (events : List Event) (hev : ∀ e ∈ events, WalkMarksOk S e)
+    (st : FromDom.PState) (doc : Node) (rest : List Node)
+    (hrun : PState.run S wsPre (PState.init S isOpen pw topOpen) events = .ok st)
+    (hfin : st.finish S = .ok (some doc, rest)) : marksOkB S none doc = true :=
+  finish_marks S st doc rest (run_minv S wsPre events _ st (init_minv S isOpen pw topOpen) hev hrun) hfin
+
+open PM.FromDom in
+/-- **`parse` returns a schema-valid document** — `Node.check()` in full (`Schema.checkNode`: content
+    expressions, marks allowed and canonical, at every level) — for **every** list of calls the DOM walk
+    can make into the placement core, hence for every HTML input, whenever `finish` returns at all.
+    Schema hypotheses: `Det`, `TextStable`, `LeafOk` (see `placement_finish_valid_partial`; `TextStable`
+    cannot be dropped — the real parser returns an invalid document without it).  Walk hypotheses: nodes
+    handed to `insert_node` are valid below their own marks, `close_extra` is called with `open_end = False`. -/
+theorem placement_finish_valid (S : Schema) (wsPre : TypeId → Bool) (hdet : Det S) (hts : TextStable S)
+    (hleaf : LeafOk S) (pw : WS) (events : List Event)
+    (hev : ∀ e ∈ events, WalkOk S e) (hevm : ∀ e ∈ events, WalkMarksOk S e)
+    (st : FromDom.PState) (doc : Node) (rest : List Node)
+    (hrun : PState.run S wsPre (PState.init S false pw false) events = .ok st)
+    (hfin : st.finish S = .ok (some doc, rest)) : S.checkNode doc = true :=
+  checkNode_of S doc none
+    (placement_finish_valid_partial S wsPre hdet hts hleaf pw events hev st doc rest hrun hfin)
+    (placement_finish_marks S wsPre false pw false events hevm st doc rest hrun hfin)
+
+section Examples
+open PM.FromDom
+-- how expressions are read
+example : itemsOf "blockquote/".toList = [.name "blockquote".toList] := by decide
+example : itemsOf "blockquote//".toList = [.name "blockquote".toList, .any] := by decide
+example : itemsOf "/doc//list_item/paragraph/".toList =
+    [.name "doc".toList, .any, .name "list_item".toList, .name "paragraph".toList] := by decide
+example : itemsOf "//p".toList = [.any, .name "p".toList] := by decide
+example : alternatives "blockquote// \t|  doc/ ".toList = ["blockquote//".toList, "doc/ ".toList] := by decide
+-- the wildcard quirk on a three-type table (0 = doc, 1 = blockquote, 2 = p), names only
+private def ok3 (s : List Char) (t : TypeId) : Bool := s == (["doc", "blockquote", "p"].getD t "").toList
+example : matchesAlt ok3 [2, 1, 0] "//p".toList = true := by decide
+example : matchesAlt ok3 [2] "//p".toList = false := by decide
+example : matchesAlt ok3 [2] "p".toList = true := by decide
+example : matchesAlt ok3 [2, 1, 1, 0] "doc//p/".toList = true := by decide
+example : matchesAlt ok3 [2, 1, 1, 0] "doc/p/".toList = false := by decide
+
+-- a three-type schema: doc (p+), p (text*), text — the hypotheses hold, and a run
+private def mkT (name : String) (isText isInline isLeaf inl : Bool) (dfa : Array DfaState) : NodeType :=
+  { name := name, isText := isText, isInline := isInline, isLeaf := isLeaf, isAtom := isLeaf,
+    inlineContent := inl, isolating := false, defining := false, code := false,
+    dfa := dfa, markSet := none, attrs := [] }
+private def S3 : Schema :=
+  { nodes := #[mkT "doc" false false false false #[⟨false, [(1, 1)]⟩, ⟨true, [(1, 1)]⟩],
+               mkT "p" false false false true #[⟨true, [(2, 1)]⟩, ⟨true, [(2, 1)]⟩],
+               mkT "text" true true true false #[⟨true, []⟩]],
+    marks := #[], top := 0, textTy := 2 }
+example : Det S3 := det_of_detB S3 (by decide)
+example : TextStable S3 := textStable_of_B S3 (by decide)
+example : LeafOk S3 := leafOk_of_B S3 (by decide)
+example : WalkMarksOk S3 (.insertNode (.text [104, 105] [])) := rfl
+-- the stack after the walk inserted the text "hi" at top level: `find_place` wrapped it in a `p`; both
+-- contexts carry the match their content (+ open child) leads to
+example : ((PState.run S3 (fun _ => false) (PState.init S3 false .unset false) [.insertNode (.text [104, 105] [])]).toOption.map
+    (fun st => st.nodes.map (fun c => (c.ty, c.mtch, c.content)))) =
+    some [(some 0, some 1, []), (some 1, some 1, [.text [104, 105] []])] := by decide +kernel
+example : WalkOk S3 (.insertNode (.text [104, 105] [])) := rfl
+end Examples
 
 end PM.C19
